@@ -146,6 +146,8 @@ class State:
         """Immutable snapshot of a value (references replaced by their current contents)."""
         if isinstance(v, Ref):
             o = self.heap[v.id]
+            if isinstance(o, list) and v.kind == "set":
+                return K(frozenset(self.freeze(x) for x in o))
             if isinstance(o, list):
                 return R("list", items=tuple(self.freeze(x) for x in o))
             d = o[2] if isinstance(o, tuple) else o
@@ -444,7 +446,7 @@ class Interp:
         if factory == "dict":
             return st.alloc("dict", {})
         if factory == "set":
-            return K(frozenset())
+            return st.alloc("set", [])
         if factory == "int":
             return K(0)
         return U("default factory " + factory)
@@ -454,7 +456,34 @@ class Interp:
         tail = (fname or "").split(".")[-1]
         if isinstance(fval, Ref) and meth is not None:
             o = st.deref(fval)
+            if isinstance(o, list) and fval.kind == "set":
+                if meth == "add" and len(args) == 1:
+                    if args[0] not in o:
+                        o.append(args[0])
+                    return K(None)
+                if meth == "update" and len(args) == 1:
+                    seq = self.iterate(args[0], st)
+                    if seq is None:
+                        return U("update with unknown iterable")
+                    for x in seq:
+                        if x not in o:
+                            o.append(x)
+                    return K(None)
+                if meth == "discard" and len(args) == 1:
+                    if args[0] in o:
+                        o.remove(args[0])
+                    return K(None)
+                if meth == "copy":
+                    return st.alloc("set", list(o))
+                return None
             if isinstance(o, list):
+                if meth == "pop" and len(args) <= 1:
+                    idx = args[0].v if args and isinstance(args[0], K) else -1
+                    try:
+                        return o.pop(idx)
+                    except IndexError:
+                        st.pending = st.pending or "IndexError"
+                        return U("pop from empty list")
                 if meth == "append" and len(args) == 1:
                     o.append(args[0])
                     return K(None)
@@ -478,6 +507,13 @@ class Interp:
                 return d.get(args[0], args[1] if len(args) > 1 else K(None))
             if meth == "setdefault" and len(args) == 2:
                 return d.setdefault(args[0], args[1])
+            if meth == "pop" and args:
+                if args[0] in d:
+                    return d.pop(args[0])
+                if len(args) > 1:
+                    return args[1]
+                st.pending = st.pending or "KeyError"
+                return U("KeyError")
             if meth == "isdisjoint":
                 return None
             return None
@@ -506,6 +542,15 @@ class Interp:
             return None
         if fname == "dict" and not args and not kwargs:
             return st.alloc("dict", {})
+        if fname == "set" and len(args) <= 1:
+            seq = self.iterate(args[0], st) if args else []
+            if seq is not None:
+                out_s: List[V] = []
+                for x in seq:
+                    if x not in out_s:
+                        out_s.append(x)
+                return st.alloc("set", out_s)
+            return None
         if fname == "enumerate" and 1 <= len(args) <= 2:
             seq = self.iterate(args[0], st)
             start = args[1].v if len(args) == 2 and isinstance(args[1], K) else 0
@@ -608,6 +653,11 @@ class Interp:
             neg = isinstance(op, ast.NotIn)
             if isinstance(b, R) and b.kind == "dict" and not isinstance(a, U):
                 r = any(k == a for k, _ in b.fields["items"])
+                return (not r) if neg else r
+            if isinstance(a, K) and isinstance(b, K) and isinstance(a.v, str) and isinstance(b.v, str):
+                return (a.v not in b.v) if neg else (a.v in b.v)
+            if isinstance(b, R) and b.kind == "list" and not isinstance(a, U):
+                r = any(x == a for x in b.fields["items"])
                 return (not r) if neg else r
             if isinstance(b, K) and isinstance(b.v, (tuple, frozenset)) and not isinstance(a, U):
                 if any(isinstance(x, U) for x in b.v):
